@@ -10,8 +10,9 @@ Contract evaluated on the real code (metamorphic, the transformation is the orac
     per-node value    :  m(split)[i] == m(orig)[origin[i]]          for every i
                          (untouched nodes equal, both twins carry the parent's value)
     per-pair value    :  m(split)[i,j] == m(orig)[i,j]              for untouched i, j
-    node-list measures:  the lists are extended by the twins of their members; list-indexed
-                         results follow the same per-node rule
+    node-list measures:  the lists are given in arbitrary (mostly non-ascending) order; each twin is
+                         inserted at an arbitrary position of the list its parent belongs to;
+                         list-indexed results follow the per-node rule position by position
 
 The twin split is implemented here from the definition in the property text; Network.splitted_copy
 is only cross-checked against it (checks `splitted_copy/*`).
@@ -452,6 +453,20 @@ def xcheck_splitted_copy(Ap, wp, attrsp, directed, v, p, A1, w1, attrs1, fail):
     return 4
 
 
+def extend_list(L0, origin, n0, n1):
+    """Node list of the split network: every new twin joins the list of the node it descends from,
+    at an arbitrary position (before / between / after the other members, not necessarily next to
+    its sibling).  The position is a fixed function of the list and the twin, so that a witness
+    (which stores the original lists in their given, possibly non-ascending order) replays exactly."""
+    L = [int(x) for x in L0]
+    members = set(L)
+    for i in range(n0, n1):
+        if int(origin[i]) in members:
+            seed = (sum((k + 1) * x for k, x in enumerate(L)) * 31 + i * 7 + len(L)) % (2 ** 31)
+            L.insert(int(np.random.RandomState(seed).randint(len(L) + 1)), int(i))
+    return L
+
+
 def run_group(group, measures=None):
     """Evaluate the contract for all cases of one (graph, weights, link weights) group.
 
@@ -476,7 +491,6 @@ def run_group(group, measures=None):
         ev = np.linalg.eigvalsh(sw[:, None] * (A + np.eye(n0)) * sw[None, :])
         eig_ok = bool(len(ev) >= 2 and ev[-1] > 0 and (ev[-1] - ev[-2]) / ev[-1] >= 3e-3)
     Rm = reach(A)
-
 
     def mkcase(splits, lists):
         return {"A": A.tolist(), "w": w.tolist(), "attrs": jsonable(attrs), "directed": directed,
@@ -529,10 +543,7 @@ def run_group(group, measures=None):
                 ctx0 = {"l1": list(lists[0]), "l2": list(lists[1])}
                 if lk not in base_l:
                     base_l[lk] = evaluate(nets0, ctx0, M_l, directed, eig_ok)
-                ctx1 = {}
-                for key in ("l1", "l2"):
-                    ctx1[key] = list(ctx0[key]) + [i for i in range(n0, len(w1))
-                                                   if origin[i] in ctx0[key]]
+                ctx1 = {key: extend_list(ctx0[key], origin, n0, len(w1)) for key in ("l1", "l2")}
                 got_l = evaluate(nets1, ctx1, M_l, directed, eig_ok)
                 check(M_l, base_l[lk], got_l, ctx0, ctx1, origin, splits, stage, lists)
 
@@ -597,6 +608,14 @@ def random_bipartition(rng, n):
             return ([int(i) for i in range(n) if mask[i]], [int(i) for i in range(n) if not mask[i]])
 
 
+def shuffled(rng, L):
+    """The node list in arbitrary order (three times out of four; else ascending)."""
+    L = [int(x) for x in L]
+    if rng.randint(4) == 0:
+        return sorted(L)
+    return [L[i] for i in rng.permutation(len(L))]
+
+
 def make_groups_for_graph(rng, A, directed, tier, exhaustive, both_weightings):
     """Groups for one graph: weightings x (split node x proportions x second split) x bipartitions."""
     n = len(A)
@@ -623,7 +642,7 @@ def make_groups_for_graph(rng, A, directed, tier, exhaustive, both_weightings):
             others = [x for x in range(n) if x != v]
             u = v if r == 0 else (n if r == 1 else int(others[int(rng.randint(len(others)))]))
             items.append({"splits": [[int(v), p1], [int(u), p2]],
-                          "lists": [[list(map(int, a)), list(map(int, b))]
+                          "lists": [[shuffled(rng, a), shuffled(rng, b)]
                                     for a, b in parts[k::len(nodes)]]})
         groups.append({"A": A.tolist(), "w": [float(x) for x in w], "attrs": {KEY: W.tolist()},
                        "directed": bool(directed), "items": items})
@@ -695,7 +714,9 @@ SCOPE = (
     "2<=n<=4 (thorough: n<=5) and every labelled directed graph with 2<=n<=3 (thorough: n<=4), every "
     "node as the split node, iterated to depth 2 (the second split re-splits the old twin, the new "
     "twin or another node), every ordered bipartition (distributed over the split nodes) for the "
-    "cross/internal/sources-targets variants; node weights from the grid {1/2,1,3/2,2,3} with "
+    "cross/internal/sources-targets variants, each group list in shuffled (3 of 4: arbitrary, else "
+    "ascending) order with the twins inserted at arbitrary list positions, list-indexed results "
+    "compared position by position; node weights from the grid {1/2,1,3/2,2,3} with "
     "proportions from {1/4,1/2,2/3} and link attribute 'lw' from {1/2,1,2,8}, and/or uniform(0.2,3) "
     "weights with uniform(0.05,0.95) proportions and uniform(0.3,3) link weights by seed (both "
     "weightings for the smaller sizes, one of them by seed for the largest undirected/the two "
